@@ -29,6 +29,7 @@ type step struct {
 	Wc    bool    `json:"wc"`    // EnableWriteCompression before the message
 	Ping  int     `json:"ping"`  // >= 0: a ping with that many payload bytes is written before the message
 	Mid   int     `json:"mid"`   // >= 0: a pong of that size is written after the first Write call (NW/WS only)
+	Via   string  `json:"via"`   // entry point of the ping (and of the close frame): WC WriteControl ("" too) | WM WriteMessage | NW NextWriter+Write+Close | PM prepared message
 }
 
 type writerCase struct {
@@ -145,6 +146,36 @@ func (r *partReader) Read(p []byte) (int, error) {
 
 func ctlPayload(n, id int) []byte { return ld.FillBytes(n, 200+id, 5) }
 
+// writeCtl writes a control message through one of the library's entry points for it.
+func writeCtl(c *websocket.Conn, via string, t int, p []byte) error {
+	switch via {
+	case "", "WC":
+		return c.WriteControl(t, p, time.Time{})
+	case "WM":
+		return c.WriteMessage(t, p)
+	case "NW":
+		w, err := c.NextWriter(t)
+		if err != nil {
+			return fmt.Errorf("NextWriter(%d): %v", t, err)
+		}
+		h := len(p) / 2
+		for _, part := range [][]byte{p[:h], p[h:]} {
+			if n, err := w.Write(part); err != nil || n != len(part) {
+				return fmt.Errorf("Write of %d bytes to the writer of a control message: %d, %v", len(part), n, err)
+			}
+		}
+		return w.Close()
+	case "PM":
+		pm, err := websocket.NewPreparedMessage(t, p)
+		if err != nil {
+			return fmt.Errorf("NewPreparedMessage(%d, %d bytes): %v", t, len(p), err)
+		}
+		return c.WritePreparedMessage(pm)
+	}
+	rp.Bug("unknown control entry point %q", via)
+	return nil
+}
+
 // writeStep writes one message through the step's API.
 func writeStep(c *websocket.Conn, st *step, data []byte, seed int) error {
 	switch st.API {
@@ -193,6 +224,10 @@ func writeStep(c *websocket.Conn, st *step, data []byte, seed int) error {
 	}
 	rp.Bug("unknown API %q", st.API)
 	return nil
+}
+
+func viaName(via string) string {
+	return map[string]string{"": "WriteControl", "WC": "WriteControl", "WM": "WriteMessage", "NW": "NextWriter + Write + Close", "PM": "a prepared message"}[via]
 }
 
 type rdMsg struct {
@@ -273,8 +308,8 @@ func runWriter(c *rp.Ctx, i, v int, cs *writerCase) rp.Result {
 		if st.Ping >= 0 {
 			p := ctlPayload(st.Ping, k)
 			pingsSent = append(pingsSent, p)
-			if err := snd.WriteControl(websocket.PingMessage, p, time.Time{}); err != nil {
-				return rp.Fail(i, "message %d: WriteControl(ping, %d bytes): %v", k+1, st.Ping, err)
+			if err := writeCtl(snd, st.Via, websocket.PingMessage, p); err != nil {
+				return rp.Fail(i, "message %d: ping of %d bytes written through %s: %v", k+1, st.Ping, viaName(st.Via), err)
 			}
 		}
 		snd.EnableWriteCompression(st.Wc)
@@ -292,8 +327,12 @@ func runWriter(c *rp.Ctx, i, v int, cs *writerCase) rp.Result {
 			w.Close()
 		}
 	}
-	if err := snd.WriteControl(websocket.CloseMessage, websocket.FormatCloseMessage(websocket.CloseNormalClosure, ""), time.Time{}); err != nil {
-		return rp.Fail(i, "WriteControl(close): %v", err)
+	closeVia := ""
+	if n := len(cs.Steps); n > 0 && cs.Steps[n-1].Ping >= 0 {
+		closeVia = cs.Steps[n-1].Via
+	}
+	if err := writeCtl(snd, closeVia, websocket.CloseMessage, websocket.FormatCloseMessage(websocket.CloseNormalClosure, "")); err != nil {
+		return rp.Fail(i, "close frame written through %s: %v", viaName(closeVia), err)
 	}
 	a.Out.CloseWrite()
 	wire := a.Out.Bytes()
